@@ -189,6 +189,9 @@ func (c *Ctx) c19Whitelist() {
 					return false
 				})
 				_ = mm
+				if !ok2 && hasField(c.fieldOrigins(mu.Key), "Whitelist") {
+					ok2 = true // the key written is itself an entry of the page's whitelist
+				}
 				r.Check(ok2, "C19.whitelist", name, "arbitrary[k]=v", posf(c, mu), "only under k == <entry of Whitelist[page]>", "a submitted field is copied into the arbitrary map without matching the page's whitelist")
 			}
 		}
